@@ -702,11 +702,13 @@ class C12(Prop):
         r = rng.random()
         if r < 0.55:
             p = rng.choice(SMALL)
-        elif r < 0.9:
+        elif r < 0.957:
             p = big_payload(rng, rng.choice([30, 100, 300, 1200]))
-        elif r < 0.98:
+        elif r < 0.997:
             p = big_payload(rng, rng.choice([8191, 8192, 9000, 20000]))
         else:
+            # bodies beyond stream()'s 2**16 default: the list-based Lean model needs 10-60 s for one
+            # of these, so they are rare (about 15 per quick run, 180 per thorough run)
             p = big_payload(rng, 70000)
         coding = rng.choice(MODEL_CODINGS if (model_only or rng.random() < 0.6) else REAL_CODINGS)
         framing = rng.choice(["cl", "cl-close", "chunked", "chunked", "close"])
@@ -745,6 +747,9 @@ class C12(Prop):
             preload, ops = 1, ["da"]
         if len(p) > 3000:
             ops = [o for o in ops if o not in ("st1", "rc1", "st3")]
+            # tens of thousands of 1..7-byte chunks cost the list-based Lean model minutes per case
+            # (vp check run 2 was stopped after 900 s with VERIF_SEED=1): big bodies get big chunks
+            csz = tuple(c for c in csz if c >= 64)
         return make_case(p, coding, framing, seg, decode, ops + TAIL, rng, parts, sizes, csz,
                          rng.random() < 0.2, preload=preload, kind="rand")
 
@@ -797,7 +802,9 @@ class C12(Prop):
             from urllib3.exceptions import DecodeError
             d = _get_decoder(case["ce"])
             outs = []
-            pieces = [bytes.fromhex(x) for x in case["pieces"]]
+            # the protocol token "-" stands for one empty input: an empty piece list is run as [b""] on
+            # both sides (seed 1 drew an empty list; the model read "-" as one empty piece: false alarm)
+            pieces = [bytes.fromhex(x) for x in case["pieces"]] or [b""]
             ok = True
             for p in pieces:
                 try:
